@@ -235,8 +235,11 @@ class RSite:
             elif r['kind'] == 'redirect':
                 moved = (b'<html><head><title>301 Moved Permanently</title></head><body><h1>Moved Permanently</h1>'
                          b'<p>The document has moved <a href="/r2.txt">here</a>.</p>' + b'<!-- pad -->' * 40 + b'</body></html>')
-                pages['/robots.txt'] = Page(301, moved if r.get('redirect_body', True) else b'', location='/r2.txt')
-                pages['/r2.txt'] = Page(200, r['text'].encode('latin-1'), ctype='text/plain')
+                hops = r.get('hops', 1)
+                chain = ['/robots.txt'] + ['/r%d.txt' % (i + 2) for i in range(hops)]
+                for a, b in zip(chain, chain[1:]):
+                    pages[a] = Page(301, moved if r.get('redirect_body', True) else b'', location=b)
+                pages[chain[-1]] = Page(200, r['text'].encode('latin-1'), ctype='text/plain')
             out[host] = pages
         return out
 
@@ -296,8 +299,22 @@ def gen_rsite(rng, big=None):
                 pages[p] = {'kind': 'redirect', 'location': rng.choice(['/private/x', '/a'])}
             else:
                 pages[p] = {'kind': 'html', 'links': links + (['/nf'] if rng.random() < 0.3 else [])}
-        s.origins[h] = {'robots': {'kind': kind, 'text': text}, 'pages': pages}
+        if text and rng.random() < 0.3:
+            # bytes that are not UTF-8 (a Latin-1 comment): the file is still a robots.txt
+            text = '# Acc\xe8s r\xe9serv\xe9 aux abonn\xe9s \xff\n' + text
+        s.origins[h] = {'robots': {'kind': kind, 'text': text, 'hops': rng.choice([1, 1, 2, 3])}, 'pages': pages}
+    m = rng.choice([None, None, 1, 2, 3])        # --max-redirect: a robots.txt behind more hops than that counts as missing
+    for o in s.origins.values():
+        o['robots']['max_redirect'] = m
     return s
+
+
+def effective_rules(rb):
+    """The rules in force for an origin: its robots.txt text, unless the file sits behind more redirects than the
+    client follows (then it is treated as missing: everything allowed)."""
+    if rb['kind'] == 'redirect' and rb.get('hops', 1) > (rb.get('max_redirect') or 20):
+        return ''
+    return rb['text']
 
 
 def run_one(args):
@@ -374,6 +391,9 @@ def run_one(args):
         extra = ['-r', '-l', '0', '--tries', '2']
         if ua:
             extra += ['--user-agent', ua]
+        m = next(iter(site.origins.values()))['robots'].get('max_redirect')
+        if m:
+            extra += ['--max-redirect', str(m)]
         starts = ['%s/' % origin_base(h) for h in site.origins]
         if any(h.endswith('#443') for h in site.origins):
             extra += ['--no-check-certificate']      # https runs over the in-memory transport without TLS
@@ -456,11 +476,11 @@ def judge(ctx, r, reply, case, site):
             if q['target'] != '/robots.txt':
                 ctx.fail('robots-not-first', 'origin', case, 'first request to %s is %s' % (origin_base(ok_), q['target']))
         rb = o['robots']
-        if q['target'] in ('/robots.txt', '/r2.txt'):
+        if q['target'] in ('/robots.txt', '/r2.txt', '/r3.txt', '/r4.txt'):
             continue
         if rb['kind'] == 'error':
             ctx.fail('fetched-despite-5xx', 'robots', case, '%s%s requested although robots.txt answers 503' % (q['host'], q['target']))
-        elif rb['kind'] in ('ok', 'redirect') and not ref_allowed(rb['text'], q['ua'], q['target']):
+        elif rb['kind'] in ('ok', 'redirect') and not ref_allowed(effective_rules(rb), q['ua'], q['target']):
             via_redirect = any(p['kind'] == 'redirect' and p['location'] == q['target'] for p in o['pages'].values())
             big = len(rb['text']) > 4096
             where = 'redirect-hop' if via_redirect else ('beyond-4096' if big else 'plain')
